@@ -184,7 +184,9 @@ def _work(arg):
 def run(ctx):
     n = 5 if ctx.tier == "quick" else 7
     pairs = [("A", "B"), ("A", "C"), ("B", "D"), ("C", "E"), ("D", "E")] if ctx.tier == "quick" else list(itertools.combinations("ABCDE", 2))
-    short = [("F", "G"), ("F", "H"), ("G", "H")] + ([("A", "F"), ("E", "G"), ("D", "H")] if ctx.tier == "thorough" else [])
+    short = [("F", "G"), ("F", "H"), ("G", "H")] + ([("A", "F"), ("E", "G"), ("D", "G")] if ctx.tier == "thorough" else [])
+    # (never a script that advances the clock together with one whose short-lived instance has nothing externalised yet - D with H -:
+    # the clock is shared environment, an instance that times out before its first request is simply gone, alone or not)
     jobs = []
     for names in core.rot(pairs, ctx.seed):
         orders = list(merges(names, n))
